@@ -29,3 +29,78 @@ package bfe_tls
 //@   ensures[accept] n >= 1 && p+1 <= n ==> result1 == 255 && len(result0) == n-(p+1)
 //@   ensures[reject] !(n >= 1 && p+1 <= n) ==> result1 == 0 && len(result0) == n
 //@   ensures[prefix] sameptr(result0, payload)
+
+//@ func (*clientHelloMsg).unmarshal
+//@   props C45
+//@   arith bv
+//@   nopanic
+//@   requires m != nil
+//@   loop 4 invariant[curve_bytes_left] 0 <= i && len(d) >= 2*(numCurves - i)
+//@   loop 5 invariant[sig_hash_bytes_left] len(d) >= 2*(n - (rangeindex + 1)) && n >= 0 && n <= 32768
+
+//@ func (*serverHelloMsg).unmarshal
+//@   props C45
+//@   arith bv
+//@   nopanic
+//@   requires m != nil
+
+//@ func (*serverKeyExchangeMsg).unmarshal
+//@   props C45
+//@   arith bv
+//@   nopanic
+//@   requires m != nil
+
+//@ func (*certificateStatusMsg).unmarshal
+//@   props C45
+//@   arith bv
+//@   nopanic
+//@   requires m != nil
+
+//@ func (*serverHelloDoneMsg).unmarshal
+//@   props C45
+//@   arith bv
+//@   nopanic
+//@   requires m != nil
+
+//@ func (*clientKeyExchangeMsg).unmarshal
+//@   props C45
+//@   arith bv
+//@   nopanic
+//@   requires m != nil
+
+//@ func (*finishedMsg).unmarshal
+//@   props C45
+//@   arith bv
+//@   nopanic
+//@   requires m != nil
+
+//@ func (*nextProtoMsg).unmarshal
+//@   props C45
+//@   arith bv
+//@   nopanic
+//@   requires m != nil
+
+//@ func (*certificateRequestMsg).unmarshal
+//@   props C45
+//@   arith bv
+//@   nopanic
+//@   requires m != nil
+//@   loop 1 invariant[sig_hash_bytes_left] len(data) >= 2*(int(numSigAndHash) - (rangeindex + 1))
+
+//@ func (*certificateVerifyMsg).unmarshal
+//@   props C45
+//@   arith bv
+//@   nopanic
+//@   requires m != nil
+
+//@ func (*newSessionTicketMsg).unmarshal
+//@   props C45
+//@   arith bv
+//@   nopanic
+//@   requires m != nil
+
+//@ func (*sessionState).unmarshal
+//@   props C45,C44
+//@   arith bv
+//@   nopanic
+//@   requires s != nil
